@@ -1,5 +1,5 @@
 (* Proofs about Model/Imports.v *)
-From TxV Require Import Core.Base Model.Imports.
+From TxV Require Import Core.Base Gen.SrcImports Model.Imports.
 
 (* ------------------------------------------------------------------ dotted names *)
 Lemma rsplit1_nodot n : has_dot n = false -> rsplit1 n = None.
@@ -90,6 +90,36 @@ Section AssocLemmas.
   Qed.
 End AssocLemmas.
 
+(* ------------------------------------------------------------------ the source facts *)
+(* Obligations re-proved on every run against Gen/SrcImports.v (translated from the current
+   textx/metamodel.py): the functions driven by the generated facts ARE the documented ones.
+   Each proof computes with the generated definitions, so it fails when the source searches in
+   another order, splits qualified names elsewhere, stops normalising import names, registers
+   imports only on first load, or builds _tx_fqn differently. *)
+Lemma lookup_src_doc s cur name : lookup s cur name = lookup_doc s cur name.
+Proof.
+  unfold lookup, lookup_doc, qualified_split_last, lookup_steps.
+  destruct (rsplit1 name) as [[q n]|]; [reflexivity|].
+  cbn [run_steps skipn]. destruct (lookup_in s cur name); [reflexivity|].
+  destruct (first_def s (imports_of s cur) name); reflexivity.
+Qed.
+
+Lemma new_import_src_doc rec stk cur imp s : new_import rec stk cur imp s = new_import_doc rec stk cur imp s.
+Proof. unfold new_import, register_import_always. reflexivity. Qed.
+
+Lemma abs_import_normalised cur imp : abs_import cur imp = norm_dots (rel_import cur imp).
+Proof. unfold abs_import, normalise_import. reflexivity. Qed.
+
+Lemma initial_imports_base : initial_imports = [BASE].
+Proof. reflexivity. Qed.
+
+Lemma fqn_src_doc c : fqn c = fqn_doc c.
+Proof.
+  unfold fqn, fqn_doc, fqn_bare, fqn_ns_whole, fqn_sep, mem_str. cbn [existsb]. rewrite orb_false_r.
+  change [95; 95; 98; 97; 115; 101; 95; 95]%N with BASE.
+  destruct (str_eqb (c_ns c) BASE); reflexivity.
+Qed.
+
 (* ------------------------------------------------------------------ __getitem__ *)
 Lemma first_def_some s nss name c :
   first_def s nss name = Some c <->
@@ -134,7 +164,7 @@ Lemma lookup_unqualified s cur name c : has_dot name = false ->
                        /\ (forall j, In j pre -> lookup_in s j name = None)
                        /\ lookup_in s i name = Some c)).
 Proof.
-  intro Hd. unfold lookup. rewrite (rsplit1_nodot _ Hd).
+  intro Hd. rewrite lookup_src_doc. unfold lookup_doc. rewrite (rsplit1_nodot _ Hd).
   destruct (lookup_in s cur name) as [c'|] eqn:E.
   - split; [intro H; left; exact H | intros [H|[H _]]; [exact H | discriminate]].
   - rewrite first_def_some. split; [intro H; right; split; [reflexivity | exact H] | intros [H|[_ H]]; [discriminate | exact H]].
@@ -144,7 +174,7 @@ Lemma lookup_unqualified_none s cur name : has_dot name = false ->
   (lookup s cur name = None <->
    lookup_in s cur name = None /\ forall j, In j (imports_of s cur) -> lookup_in s j name = None).
 Proof.
-  intro Hd. unfold lookup. rewrite (rsplit1_nodot _ Hd).
+  intro Hd. rewrite lookup_src_doc. unfold lookup_doc. rewrite (rsplit1_nodot _ Hd).
   destruct (lookup_in s cur name) as [c'|] eqn:E.
   - split; [discriminate | intros [H _]; discriminate].
   - rewrite first_def_none. split; [intro H; split; [reflexivity | exact H] | intros [_ H]; exact H].
@@ -153,7 +183,7 @@ Qed.
 (* A qualified name selects the named namespace's rule, whatever the current namespace and
    its imports are. *)
 Lemma lookup_qualified s cur q n : has_dot n = false -> lookup s cur (q ++ DOT :: n) = lookup_in s q n.
-Proof. intro Hd. unfold lookup. rewrite (rsplit1_qualified _ _ Hd). reflexivity. Qed.
+Proof. intro Hd. rewrite lookup_src_doc. unfold lookup_doc. rewrite (rsplit1_qualified _ _ Hd). reflexivity. Qed.
 
 (* ------------------------------------------------------------------ the cyclic-import defect *)
 Lemma cycle_silent_wrong :
@@ -192,7 +222,7 @@ Section LoadRel.
   Lemma new_import_rel rec stk cur imp s :
     (forall a t, R t (rec a t)) -> R s (new_import rec stk cur imp s).
   Proof.
-    intro Hrec. unfold new_import. destruct (has_err s) eqn:He; [apply R_refl|].
+    intro Hrec. rewrite new_import_src_doc. unfold new_import_doc. destruct (has_err s) eqn:He; [apply R_refl|].
     apply has_err_false in He.
     set (a := abs_import cur imp).
     set (s1 := if has_ns s a then if mem_str a stk then note_back cur a s else s else rec a (enter a s)).
@@ -525,7 +555,7 @@ Section Main.
   Lemma ready_lookup ns f s name c : Ready ns f s -> cls_inv fs s -> DI s -> BC s ->
     lookup s ns name = Some c -> Some (cls_key c) = spec_resolve fs ns name.
   Proof.
-    intros (Hf & Hown & Himp & Hdone) B D Hbc. unfold lookup, spec_resolve.
+    intros (Hf & Hown & Himp & Hdone) B D Hbc. rewrite lookup_src_doc. unfold lookup_doc, spec_resolve.
     destruct (rsplit1 name) as [[q n]|].
     - intro E. apply B in E as (H1 & H2 & _ & Hd). unfold cls_key. rewrite H1, H2.
       destruct (defines fs q n); [reflexivity|]. destruct Hd as [[-> Hb]|Hd]; [|discriminate].
@@ -552,7 +582,7 @@ Section Main.
   Lemma ready_lookup_none ns f s name : Ready ns f s -> cls_inv fs s -> DI s -> BC s ->
     has_dot name = false -> lookup s ns name = None -> spec_resolve fs ns name = None.
   Proof.
-    intros (Hf & Hown & Himp & Hdone) B D Hbc Hd. unfold lookup, spec_resolve. rewrite (rsplit1_nodot _ Hd).
+    intros (Hf & Hown & Himp & Hdone) B D Hbc Hd. rewrite lookup_src_doc. unfold lookup_doc, spec_resolve. rewrite (rsplit1_nodot _ Hd).
     destruct (lookup_in s ns name) as [c'|] eqn:E; [discriminate|].
     destruct (defines fs ns name) eqn:Df.
     { exfalso. unfold defines in Df. rewrite Hf in Df. apply mem_str_In in Df. apply in_map_iff in Df as (r & Hr & Hin).
@@ -636,7 +666,7 @@ Qed.
 
 (* ------------------------------------------------------------------ the main induction *)
 Lemma new_import_err rec stk cur imp s : serr s <> None -> new_import rec stk cur imp s = s.
-Proof. intro H. unfold new_import, has_err. destruct (serr s); [reflexivity | contradiction]. Qed.
+Proof. intro H. rewrite new_import_src_doc. unfold new_import_doc, has_err. destruct (serr s); [reflexivity | contradiction]. Qed.
 
 Lemma fold_imports_err rec stk cur imps : forall s, serr s <> None ->
   fold_left (fun s imp => new_import rec stk cur imp s) imps s = s.
@@ -690,7 +720,7 @@ Section Main2.
   Proof.
     intros IH (HG & Hns & Himp & Hdone & Hframe & Hhas).
     pose proof HG as (He & Hcf & Hbc & Hdi & Hlk & Hos).
-    unfold new_import. rewrite (proj2 (has_err_false t) He).
+    rewrite new_import_src_doc. unfold new_import_doc. rewrite (proj2 (has_err_false t) He).
     set (a := abs_import ns imp).
     assert (Hpre : map (abs_import ns) (pre ++ [imp]) = map (abs_import ns) pre ++ [a]) by (rewrite map_app; reflexivity).
     destruct (has_ns t a) eqn:Ha.
@@ -948,7 +978,7 @@ Section Top.
     c_ns c = a /\ c_name c = n /\ fqn c = (if str_eqb a BASE then n else a ++ DOT :: n).
   Proof.
     intros a n c H. destruct CF_main as (_ & B & _). apply B in H as (H1 & H2 & _).
-    split; [exact H1|]. split; [exact H2|]. unfold fqn. rewrite H1, H2. reflexivity.
+    split; [exact H1|]. split; [exact H2|]. rewrite fqn_src_doc. unfold fqn_doc. rewrite H1, H2. reflexivity.
   Qed.
 
   Lemma classes_distinct : forall a n c a' n' c',
@@ -999,7 +1029,7 @@ Section Once.
   Lemma NL_import fuel stk cur imp t : OnceSpec fuel -> NL t ->
     NL (new_import (load fuel fs stk) stk cur imp t).
   Proof.
-    intros IH H. unfold new_import. destruct (has_err t); [exact H|].
+    intros IH H. rewrite new_import_src_doc. unfold new_import_doc. destruct (has_err t); [exact H|].
     set (a := abs_import cur imp).
     destruct (has_ns t a) eqn:Ha.
     - set (s1 := if mem_str a stk then note_back cur a t else t).
@@ -1095,7 +1125,7 @@ Section Term.
   Lemma term_import fuel stk cur imp t : TermSpec fuel -> NF t -> unl t <= fuel ->
     NF (new_import (load fuel fs stk) stk cur imp t) /\ unl (new_import (load fuel fs stk) stk cur imp t) <= fuel.
   Proof.
-    intros IH Hn Hu. unfold new_import. destruct (has_err t); [split; assumption|].
+    intros IH Hn Hu. rewrite new_import_src_doc. unfold new_import_doc. destruct (has_err t); [split; assumption|].
     set (a := abs_import cur imp).
     destruct (has_ns t a) eqn:Ha.
     - set (s1 := if mem_str a stk then note_back cur a t else t).
